@@ -133,6 +133,18 @@ func c04Probe(a lib.Args, res *lib.Result) error {
 			}
 		}
 	}
+	// a `?` inside the copy source that is not a final `?versionId=` (the gate and the parser of the copy
+	// source must agree on where the key ends), and keys with very many leading segments
+	for _, op := range []string{"CopyObject-source", "UploadPartCopy-source"} {
+		for tn := range targets {
+			cases = append(cases, c04Case{op, "qmark", "raw", tn, 0}, c04Case{op, "qmark", "pct-dots", tn, 0}, c04Case{op, "qmark-versionid", "raw", tn, 0})
+		}
+	}
+	for _, op := range []string{"GetObject", "PutObject", "DeleteObject", "CopyObject-source", "DeleteObjects-key"} {
+		for tn := range targets {
+			cases = append(cases, c04Case{op, "", "raw", tn, 70}, c04Case{op, "", "pct-dots", tn, 64})
+		}
+	}
 	snap := protected()
 	tStart := time.Now()
 	for i, c := range cases {
@@ -177,6 +189,12 @@ func c04Probe(a lib.Args, res *lib.Result) error {
 			}
 		}
 		name := strings.Join(enc, sp.sep) // percent-encoded form (for URL paths)
+		switch c.param {
+		case "qmark":
+			name = "a?" + sp.sep + sp.up + sp.sep + name
+		case "qmark-versionid":
+			name = "a?versionId=x" + sp.sep + sp.up + sp.sep + name + "?versionId=null"
+		}
 		rawName := name                   // for XML bodies / headers the literal decoded form is used too
 		rawName = strings.NewReplacer("%2e", ".", "%2E", ".", "%2f", "/", "%2F", "/", "%5c", "\\", "%00", "\x00", "%252e", "%2e", "%252f", "%2f", "%c0%ae", "\xc0\xae").Replace(rawName)
 		req := gw.Req{Method: "GET", Path: "/abk/" + name}
@@ -365,6 +383,18 @@ func c04Direct(a lib.Args, res *lib.Result) error {
 		k := 1 + r.Intn(6)
 		var p []string
 		for j := 0; j < k; j++ {
+			p = append(p, segs[r.Intn(len(segs))])
+		}
+		names = append(names, strings.Join(p, "/"))
+	}
+	// many ordinary segments in front of the dot segments (a validator that looks at a bounded number of
+	// segments only would miss what follows)
+	for i := 0; i < n/100+50; i++ {
+		var p []string
+		for j := 40 + r.Intn(60); j > 0; j-- {
+			p = append(p, []string{"a", "b", "dir", "a.b"}[r.Intn(4)])
+		}
+		for j := r.Intn(4); j > 0; j-- {
 			p = append(p, segs[r.Intn(len(segs))])
 		}
 		names = append(names, strings.Join(p, "/"))
